@@ -455,7 +455,6 @@ func (w *World) checkRevertDiffs(n *Node, e *blockEntry, ru consensus.RevertUpda
 	}
 }
 
-
 // revertProbe reverts the block just applied on a copy of the store: every
 // block is a revert test, not only those a reorg happens to undo.
 func (w *World) revertProbe(n *Node, e *blockEntry) {
@@ -494,7 +493,6 @@ func (w *World) revertProbe(n *Node, e *blockEntry) {
 		w.stats.Inc("reach.revert-nonempty")
 	}
 }
-
 
 // revertCulprit names the kind of block content behind a revert mismatch.
 func revertCulprit(ru consensus.RevertUpdate) string {
